@@ -178,6 +178,46 @@ def run_chart(text: str, want=None) -> str:
     return dump_chart(c, w)
 
 
+def run_observed(text: str, want=None) -> str:
+    """C17: the canonical dump plus what it canonicalises away or does not touch — iteration order of the track map,
+    str()/repr() of the chart, and the public tick-to-time and rate queries on a fixed set of ticks"""
+    import hashlib
+    from datetime import timedelta as _td
+
+    c, e, w = parse(text, want)
+    if e is not None:
+        return err_name(e)
+    ins, dif = enums()
+    out = [dump_chart(c, w)]
+    out.append("ORDER " + ",".join(f"{ins.index(i)}:{dif.index(d)}" for i, dd in c.instrument_tracks.items() for d in dd))
+    try:
+        out.append("STR " + hashlib.sha256((str(c) + "\x00" + repr(c)).encode()).hexdigest()[:16])
+    except Exception as ex:  # noqa: BLE001
+        out.append("STR raised " + type(ex).__name__)
+    be = c.sync_track.bpm_events
+    q = []
+    for t in (0, 1, 96, 144, 192, 384, 400, 768, 1000, 5000):
+        try:
+            a = be.timestamp_at_tick_no_optimize_return(t)
+            b, idx = be.timestamp_at_tick(t)
+            q.append(f"{t}:{us(a)}:{us(b)}:{idx}")
+        except Exception as ex:  # noqa: BLE001
+            q.append(f"{t}:{type(ex).__name__}")
+    out.append("Q " + ",".join(q))
+    r = []
+    for i, dd in c.instrument_tracks.items():
+        for d in dd:
+            for args in ((), (0, 400), (96,), (_td(0), _td(seconds=2))):
+                try:
+                    r.append(rat(float(c.notes_per_second(i, d, *args))))
+                except Exception as ex:  # noqa: BLE001
+                    r.append(type(ex).__name__)
+            break
+        break
+    out.append("R " + ",".join(r))
+    return "|".join(out)
+
+
 def run_path(data: bytes, want=None, tmpdir=None) -> str:
     """`Chart.from_filepath` on real bytes through a real temporary file."""
     import os
